@@ -938,6 +938,11 @@ static void run_lattice() {
 
 // ------------------------------------------------------------------ self test of the oracle
 static bool selftest(const std::string& stub) {
+  // Not demanded by the property (writer and reader only have to agree), recorded as a note:
+  for (int i = 0; i < NOPS; ++i)
+    if (OPS[i].w->code != OPS[i].spec_code)
+      R.cls(std::string("note:writer opcode ") + OPS[i].name + "=" + std::to_string(OPS[i].w->code) +
+            " differs from the NL specification number " + std::to_string(OPS[i].spec_code));
   Model m = host(make_op(O_("SUM"), 3), TN);
   std::string e = auto_classes(m); if (e.empty()) e = check_consistency(m);
   if (!e.empty()) { R.broken("selftest model inconsistent: " + e); return false; }
